@@ -7,5 +7,7 @@ R=$1; ID=$2; PKG=$3; RUN=$4; PROPS=${5:-$ID}
 S=/tmp/seed$R-$ID; WT=/tmp/wt$R-$ID
 /verif/tools/confirm_seed.sh "$S" "$WT" "$PKG" "$RUN" 2>&1 | grep -v "^ok\|^---\|^PASS\|^FAIL\|^$" | tail -6
 for p in ${PROPS//,/ }; do
-  /verif/selftest/run.py --patch "$S/patch.diff" --props "$p" --no-suite -v 2>&1 | tail -8 | cut -c1-400
+  o=$(/verif/selftest/run.py --patch "$S/patch.diff" --props "$p" --no-suite -v 2>&1)
+  echo "$o" | grep -m3 "^    VIOLATION property\|expect=caught" | cut -c1-400
+  echo "$o" | tail -6 | cut -c1-400
 done
